@@ -75,6 +75,8 @@ func runC17(c *Ctx) {
 			okSt = okSt && dominates(sts[0], probes[0])
 		}
 		c.obF("R17.1", hb, "installs-wrapper-before-probing", okSt, "the wrapper is installed as r.Body before it is probed (the peeked byte stays in the body the caller reads)", "r.Body is not set to the wrapper before HasContent")
+		// … and only then: a declared length — zero included — is the answer; the stream behind it is not asked
+		c.obI("R17.1", probes[0], "probe-only-without-declared-length", guardedBy(probes[0], nil, negate(headerPresent)), "the stream is probed only when no Content-Length is declared: with a declared length the answer is `length > 0`, whatever else the request carries", "the probe is reachable with a Content-Length header present: a declared zero length is overridden by what the stream happens to deliver")
 		recv, _ := callArgs(probes[0].Common())
 		okP, _ := allOrigins(recv, oIsValue(w))
 		c.obI("R17.1", probes[0], "probes-installed-wrapper", okP, "the wrapper probed is the one installed", "")
